@@ -12,7 +12,7 @@ spec keys:
   births: list of births per step (cycled)                birth_phase: listener channel used for births
   mort: None | {"mods": k}              disease: None | {"states": 2..4, "p": [sixteenths...], "self": bool}
   stepmod: None | {"every": k, "mult": m}   (per-simulant clocks: simulants with id % every == 0 ask for m * step)
-  obs: None | {"strats": 0..3, "when": phase, "concat": bool}
+  obs: None | {"strats": 0..3, "when": phase, "concat": bool, "defaults": [] | ["sex"] (needs strats >= 1) | ["sex", "color"] (>= 2)}
 """
 from __future__ import annotations
 
@@ -237,6 +237,10 @@ class Obs(Component):
             builder.results.register_binned_stratification("age", "age_group", [0, 40, 80, 400], ["young", "old", "ancient"])
             strats.append("age_group")
         cols = ["sex", "color", "age"]
+        if o.get("defaults"):
+            # stratified by the configured defaults only: no additional_stratifications argument at all
+            builder.results.register_adding_observation("count_by_default", when=o.get("when", "collect_metrics"),
+                                                        requires_columns=cols)
         builder.results.register_adding_observation("count", when=o.get("when", "collect_metrics"),
                                                     additional_stratifications=strats, requires_columns=cols)
         builder.results.register_adding_observation("agesum", when=o.get("when", "collect_metrics"),
@@ -284,6 +288,8 @@ def configuration(spec):
         cfg["time"] = {"start": 0, "end": spec["step"] * spec["n_steps"], "step_size": spec["step"]}
     if spec.get("stepmod"):
         cfg["time"]["standard_step_size"] = spec["step"]
+    if spec.get("obs") and spec["obs"].get("defaults"):
+        cfg["stratification"] = {"default": list(spec["obs"]["defaults"])}
     return cfg
 
 
